@@ -46,8 +46,10 @@ Class(ss, src, ps, fs) ==
          [] OTHER                        -> "ok"
 
 (* XalanTransformer's status codes: -1 XSLException, -2 SAX(Parse)Exception *)
-StatusOf(c) == CASE c \in {"ok", "encoding", "unserializable", "missingDoc"} -> 0
-                 [] c \in {"terminated", "xpathError", "extError", "invalidSS"} -> -1
+(* ("unserializable": a text-method character the output encoding lacks - an error since repair 0dce416, *)
+(*  raised while output is being written)                                                              *)
+StatusOf(c) == CASE c \in {"ok", "encoding", "missingDoc"} -> 0
+                 [] c \in {"terminated", "xpathError", "extError", "invalidSS", "unserializable"} -> -1
                  [] c \in {"malformedSS", "malformedSrc"} -> -2
 
 (* the engine as the model checker sees it: a deterministic function of its four inputs; the output *)
